@@ -6,7 +6,8 @@ import numpy
 from akext import _lib
 from akext import content as _content
 from akext import index as _index
-from akext._util import (FILENAME, arg_int64, arg_bool, arg_double, arg_string, cast_string, _badarg, _load_int)
+from akext._util import (FILENAME, arg_int64, arg_bool, arg_double, arg_string, cast_string, _badarg, _load_int,
+                         no_pickle)
 
 
 def _fn(line):
@@ -26,6 +27,7 @@ _RAISE_FLAGS = [("raise_user_halt", 3), ("raise_recursion_depth_exceeded", 4), (
 _DEFAULT_INPUTS = {}       # py::arg("inputs") = py::dict()
 
 
+@no_pickle
 class _ForthMachine(object):
     __slots__ = ("_h", "__weakref__")
     _is64 = None
